@@ -94,10 +94,20 @@ class sym_complex(builtins.complex, metaclass=_ComplexMeta):
         return builtins.complex(*a)
 
 
+_TYPE_ALIAS = {}
+
+
 def sym_type(*a):
     if len(a) == 1 and isinstance(a[0], Sym):
         return sym_float if a[0].is_real() else sym_complex
-    return builtins.type(*a)
+    t = builtins.type(*a)
+    # `type(x) is int` inside a shimmed module compares with the module's own binding of the name
+    return _TYPE_ALIAS.get(t, t) if len(a) == 1 else t
+
+
+_TYPE_ALIAS.update({builtins.int: sym_int, builtins.float: sym_float, builtins.complex: sym_complex})
+for _c, _n in ((sym_int, "int"), (sym_float, "float"), (sym_complex, "complex")):
+    _c.__name__ = _c.__qualname__ = _n
 
 
 def sym_isinstance(x, types):
